@@ -3,7 +3,8 @@
 use crate::common::{any_endian, stub_format, stub_utf16_decode, NullSink};
 use minidump::format as md;
 use minidump::verif as hook;
-use minidump::{Endian, MinidumpContext, MinidumpRawContext, MinidumpStream};
+use minidump::system_info::Cpu;
+use minidump::{Endian, MinidumpContext, MinidumpMemory, MinidumpRawContext, MinidumpStream, MinidumpSystemInfo};
 
 // ---------------------------------------------------------------- allocation clause
 pub static mut CAP_LIMIT: usize = 0;
@@ -262,6 +263,47 @@ fn c01_q_misc_info_read() {
     let r44 = minidump::MinidumpMiscInfo::read(&b, &b, e, None);
     assert!(matches!(r44.as_ref().map(|m| &m.raw), Ok(minidump::RawMiscInfo::MiscInfo2(_))));
     std::mem::forget(r44);
+}
+
+fn thread_print(cpu: Option<Cpu>) {
+    let e = any_endian();
+    let mut raw: md::MINIDUMP_THREAD = unsafe { std::mem::zeroed() };
+    raw.thread_id = kani::any();
+    raw.suspend_count = kani::any();
+    raw.teb = kani::any();
+    raw.stack.start_of_memory_range = kani::any();
+    raw.stack.memory.data_size = kani::any();
+    let bytes: [u8; 20] = kani::any();
+    let len: usize = kani::any();
+    kani::assume(len <= 20);
+    let stack = MinidumpMemory { desc: Default::default(), base_address: kani::any(), size: len as u64, bytes: &bytes[..len], endian: e };
+    let t = minidump::verif::thread_from_parts(raw, None, Some(stack), e);
+    let mut si: MinidumpSystemInfo = unsafe { std::mem::zeroed() };
+    let r = match cpu {
+        Some(c) => {
+            si.cpu = c;
+            t.print(&mut NullSink, None, Some(&si), None, false)
+        }
+        None => t.print(&mut NullSink, None, None, None, false),
+    };
+    assert!(r.is_ok());
+    kani::cover!(len % 8 != 0 && len > 8, "a stack whose length is not a multiple of the word size");
+    std::mem::forget(si);
+    std::mem::forget(t);
+}
+
+// ---------------------------------------------------------------- thread print (stack dump)
+/// F: MinidumpThread::print (non-brief: header fields, missing context, stack_memory, the word-by-word stack dump), built through the thread_from_parts hook
+/// I: thread header fields, a stack of 0..=20 symbolic bytes at a symbolic address, byte order; pointer width 32 (x86), 64 (amd64) and unknown (no system info)
+/// B: stacks of at most 20 bytes; no context bytes (context printing has its own harnesses)
+/// A: NullSink (format arguments are evaluated, text is not produced); all-zero MinidumpSystemInfo with the cpu field set
+/// O: never panics for any stack length (a stack that is not a whole number of words included); returns Ok
+#[kani::proof]
+#[kani::unwind(8)]
+fn c01_q_thread_print_stack_dump() {
+    thread_print(Some(Cpu::X86));
+    thread_print(Some(Cpu::X86_64));
+    thread_print(None);
 }
 
 #[path = "../playback/c01_streams.rs"]
